@@ -5,6 +5,21 @@ V = os.path.dirname(os.path.dirname(os.path.abspath(__file__)))
 PY = "PYTHONPATH=/repo PYTHONHASHSEED=0 /venv/bin/python"
 
 CHECKS = {
+ "C15": dict(
+   text="Four theorems over list matrices of any shape: premultiplied form = residual form for symmetric W (given the defining properties of G^T W G, G^T W d, "
+        "d^T W d); Cholesky form; G^T is the adjoint of G; G^T W (G m - d) is the coordinate-wise derivative of the misfit (exact second-order expansion + "
+        "Coquelicot). Tie: 160 generated instances per run over dense/sparse x scalar (python/numpy)/vector/full covariance x premultiplication x dtype x wrapper/"
+        "concrete x pickle: misfit, gradient, forward inside the Coq-Interval enclosure of the residual-form model at working precision; bounds.",
+   note="Trusted: Coq kernel, stdlib real axioms + classic; harness; numpy.linalg.inv in the harness supplies W = C^-1 to the model; MKL path not exercised (no MKL).",
+   technique="Coq proof (bilinear algebra over lists, Coquelicot) + interval-arithmetic correspondence", ref="5/C15"),
+ "C17": dict(
+   text="Nine theorems: forward relation; masked least-squares misfit with zero contribution (misfit and gradient) of missing picks; the x, y, z partial "
+        "derivatives of a datum and the x, T, v derivatives of a whole event (any stations, any missing pattern) are the model's gradient entries (Coquelicot); zero "
+        "misfit and gradient at the truth. Tie: generated 2D/3D instances: misfit, every gradient component (fixes the x,[y,]z,T,..,v layout) and predicted times "
+        "inside Coq-Interval enclosures; finite gradients with missing picks; 3D(y=0) = 2D; zero at truth on the real classes.",
+   note="Trusted: Coq kernel, stdlib real axioms + classic; harness. The 2D class is modelled as the y = 0 slice of the 3D model; their agreement in the code is a "
+        "co-execution fact. Event-level y and z derivatives are analogous to x and not separately stated.",
+   technique="Coq proof (Coquelicot auto_derive per datum, induction over stations) + interval-arithmetic correspondence", ref="5/C17"),
  "C05": dict(
    text="Theorem (Coquelicot is_derive): for every expression of the distribution syntax (separable leaves = StandardNormal1D/Normal diag/Laplace/Uniform, full "
         "quadratic forms, Himmelblau; nodes = Additive/BayesRule, Composite, Mixture, log-transform, temperature scaling), every admissible point and every "
